@@ -280,6 +280,10 @@ def calculate_sparam(
             continue
         source_idx = objects.index(source.name)
         objects = objects.aset(f"object_list->[{source_idx}]->switch->is_always_off", True)
+        # The per-step on/off lookup arrays of a source are derived from its switch at placement time.
+        # Refresh them here: apply_params below only re-applies objects that overlap a device, so without
+        # this the "switched off" port sources would keep injecting.
+        objects = objects.aset(f"object_list->[{source_idx}]", objects.object_list[source_idx]._update_on_arrays())
     if not found_input:
         raise ValueError(f"{input_port_name=} does not exist")
 
